@@ -25,6 +25,8 @@ type Config struct {
 type Route struct {
 	Pattern string   `json:"pattern"`
 	Methods []string `json:"methods"`
+	// Remove: after all registrations, Remove(Pattern, Remove...) - a mix of registered and unregistered names
+	Remove []string `json:"remove,omitempty"`
 }
 
 type Request struct {
@@ -84,6 +86,16 @@ func Gen(t *rapid.T) Case {
 	case 0:
 	case 1:
 		c.Cfg.AllowHeaders = []string{"*"}
+		if rapid.Bool().Draw(t, "starMixed") {
+			c.Cfg.AllowHeaders = rapid.Permutation([]string{"*", "Content-Type", "X-Custom"}).Draw(t, "starMix")[:rapid.IntRange(2, 3).Draw(t, "starMixN")]
+			hasStar := false
+			for _, h := range c.Cfg.AllowHeaders {
+				hasStar = hasStar || h == "*"
+			}
+			if !hasStar {
+				c.Cfg.AllowHeaders[0] = "*"
+			}
+		}
 	default:
 		c.Cfg.AllowHeaders = rapid.SliceOfNDistinct(rapid.SampledFrom(headerPool[:9]), 1, 4, rapid.ID[string]).Draw(t, "ah")
 	}
@@ -105,7 +117,11 @@ func Gen(t *rapid.T) Case {
 	}
 	perm := rapid.Permutation(patterns).Draw(t, "routes")
 	for _, p := range perm[:rapid.IntRange(1, 3).Draw(t, "nroutes")] {
-		c.Routes = append(c.Routes, Route{Pattern: p, Methods: rapid.SampledFrom(methodSets).Draw(t, "rmethods")})
+		rt := Route{Pattern: p, Methods: rapid.SampledFrom(methodSets).Draw(t, "rmethods")}
+		if rapid.IntRange(0, 3).Draw(t, "rremove") == 0 {
+			rt.Remove = rapid.SliceOfNDistinct(rapid.SampledFrom([]string{"GET", "POST", "DELETE", "PUT", "PATCH", "CONNECT"}), 1, 3, rapid.ID[string]).Draw(t, "rremoveMs")
+		}
+		c.Routes = append(c.Routes, rt)
 	}
 	str := func(s string) *string { return &s }
 	for i, n := 0, rapid.IntRange(1, 8).Draw(t, "nreqs"); i < n; i++ {
@@ -235,6 +251,12 @@ func Build(c Case) *World {
 		h := env.NewH()
 		r.Handle(rt.Pattern, h, nil, rt.Methods...)
 		m.Handle(rt.Pattern, h.ID, rt.Methods)
+	}
+	for _, rt := range c.Routes {
+		if len(rt.Remove) > 0 {
+			r.Remove(rt.Pattern, rt.Remove...)
+			m.Remove(rt.Pattern, rt.Remove...)
+		}
 	}
 	return &World{R: r, H: front, M: m}
 }
